@@ -4,7 +4,7 @@
     what the implementation returned, the conclusion below — the statement of C01 for that
     input — holds over the reals. *)
 From Coq Require Import QArith Qreals Reals List.
-From D3 Require Import Base.Ops Base.Vec Base.RVec Spec.Convex Checker.Shapes Checker.Narrow Model.Simplex Model.JoltLoop Proofs.JoltLoop Proofs.JoltStall.
+From D3 Require Import Base.Ops Base.Vec Base.RVec Spec.Convex Checker.Shapes Checker.Narrow Model.Simplex Model.JoltLoop Proofs.JoltLoop Proofs.JoltStall Proofs.JoltStallEx.
 Import ListNotations.
 
 (** the support-value bound every separation certificate rests on *)
@@ -115,6 +115,23 @@ Theorem C01_exact_on_stall_partial : forall (A B : set3) (p q : V3R) (s : @dstat
   forall a b, A a -> B b -> (norm (search_direction s) <= norm (vsub a b))%R.
 Proof. exact distance_step_stall_exact_partial. Qed.
 
+(** the hypotheses of [C01_exact_on_stall_partial] are satisfiable TOGETHER: the state of the loop
+    model after its first iteration on A = {(2,0,0)}, B = {(0,0,0)} meets all eight of them (the second
+    support point repeats the first, the solver reports no improvement), and the reported distance is 2 *)
+Example C01_exact_on_stall_nonvacuous :
+  srows exA exB ex_s /\ dinv ex_s /\ prev_v_len_sq ex_s = v_len_sq ex_s /\
+  is_support exA (search_direction ex_s) ex_p /\
+  is_support exB (vneg (search_direction ex_s)) ex_q /\
+  conv_hull (Ys ex_s) (vneg (search_direction ex_s)) /\
+  (forall v' sx prev',
+      get_closest_point_to_origin (Ys ex_s ++ [vsub ex_p ex_q])
+        (length (Ys ex_s ++ [vsub ex_p ex_q])) prev' = GcpOk v' (dot v' v') sx ->
+      min_norm_in_hull (Ys ex_s ++ [vsub ex_p ex_q]) v') /\
+  get_closest_point_to_origin (Ys ex_s ++ [vsub ex_p ex_q])
+    (length (Ys ex_s ++ [vsub ex_p ex_q])) (prev_v_len_sq ex_s) = GcpFail /\
+  norm (search_direction ex_s) = 2%R.
+Proof. exact stall_exact_nonvacuous. Qed.
+
 Example C01_loop_nonvacuous : srows (fun _ => True) (fun _ => True) (@dstate0 R ROps) /\ dinv (@dstate0 R ROps).
 Proof. split; [apply srows0 | apply dinv0]. Qed.
 
@@ -132,3 +149,4 @@ Print Assumptions C01_gap_bound_partial.
 Print Assumptions C01_stall_lower_bound.
 Print Assumptions C01_progress_possible.
 Print Assumptions C01_exact_on_stall_partial.
+Print Assumptions C01_exact_on_stall_nonvacuous.
